@@ -1868,7 +1868,7 @@ impl TypeLayout {
             (BigInt, Int, ..) => BigInt,
             (BigInt, Float, ..) => Float,
             //======================
-            (x, Byte, ..) | (Byte, x, ..) => *x, // byte will always get overshadowed.
+            (x @ (Int | BigInt | Float | Byte), Byte, ..) | (Byte, x @ (Int | BigInt | Float), ..) => *x, // byte will always get overshadowed.
             //======================
             (Str(StrWrapper(Some(len1))), Str(StrWrapper(Some(len2))), Add) => {
                 Str(StrWrapper(Some(len1 + len2)))
